@@ -32,3 +32,15 @@ TEXT["C03"] = {
     "design_ref": "DESIGN.md section 3, C03",
     "level_note": "Real net/http over loopback; tolerances listed in the evidence assumptions are part of the oracle and each is traced to documentation in DESIGN.md.",
 }
+TEXT["C01"] = {
+    "technique": "property-based testing (rapid): integrity histories over generated wrapper/HTTP stacks against an independent digest->bytes oracle; fault injection on HTTP responses (body / Content-Length / Docker-Content-Digest corruption) with a clean-EOF-implies-match oracle",
+    "level_text": "(A) Generated histories of pushes on every path (PushBlob, chunked, raw single-POST, mount, manifest by tag/digest, raw manifest PUT), truthful or with mismatching digest/size, interleaved with deletes, complete reads and range reads with boundary offsets, through stacks drawn from the wrapper grammar (http 1-2 hops, debug, select, sub, unify); every read is compared with the test's own record and own sha256. (B) Fault enumeration by generation: each GET response is altered in flight (flip/truncate/append/replace x Content-Length left/adjusted x 5 digest-header treatments x omit-digest option); a read that ends cleanly must match its descriptor and the requested digest. Sampling; absence not established.",
+    "design_ref": "DESIGN.md section 3, C01",
+    "level_note": "Trusted: net/http, crypto/sha256, the stack builder. Degenerate ranges and unverified range readers are tolerated as documented.",
+}
+TEXT["C04"] = {
+    "technique": "property-based testing (rapid): generated content x write partition x chunk hint x close/resume pattern x wrong-offset probes x commit digest, over direct / HTTP (1-2 hops) / ociunify stacks; oracle = bytes read back from every member registry, Size() after every step, ErrRangeInvalid + tapped 416 status",
+    "level_text": "Generated-input search over the whole stated domain of a chunked upload (lengths around 0..3 chunk sizes, partitions with empty and oversized writes, hints, every subset of boundaries resumed explicitly or with -1, junk data at a wrong offset that must be refused with range-invalid / 416 on every hop and leave the upload intact, right and wrong commit digests) on 8 stack shapes; after commit the blob is read back from the top of the stack and from each underlying in-memory registry and compared byte for byte.",
+    "design_ref": "DESIGN.md section 3, C04",
+    "level_note": "Real loopback HTTP; the exclusion stated in the property (offset -1 after exactly one byte) is applied by construction and counted.",
+}
